@@ -35,7 +35,7 @@ pub open spec fn write_error_mapping_ok(res: std::io::Result<()>, config: &Confi
 //@ region src/main.rs run_app
 //@sig pub fn run_app_stdin_mode_result(res: std::io::Result<()>, config: &Config, log: &mut Ghost<bool>) -> (r: std::io::Result<i32>)
 //@fromafter <<<let res = delta(io::stdin().lock().byte_lines(), &mut writer, &config);>>>
-//@until <<<} else { // First start a subcommand>>>
+//@until <<<} else { let (subcmd_bin, subcmd_args) = subcmd.args.split_first().unwrap();>>>
 //@| ensures write_error_mapping_ok(res, config, r, old(log)@, final(log)@),  // @C18:in.stdin.mode.a.closed.pipe.ends.delta.quietly.with.status.0
 //@|         res is Ok ==> r == Ok::<i32, std::io::Error>(0),  // @C18:reading.stdin.delta.exits.0
 //@rewriteall <<<error.kind()>>> => <<<verif_kind(&error)>>>
@@ -91,7 +91,7 @@ pub open spec fn oneshot_ok(write_result: std::io::Result<()>, r: std::io::Resul
 //@ region src/main.rs run_app
 //@sig pub fn run_app_show_config_branch(write_result: std::io::Result<()>) -> (r: std::io::Result<i32>)
 //@fromafter <<<let mut stdout = stdout.lock();>>>
-//@until <<<} // The following block structure is because of>>>
+//@until <<<} let pager_cfg = (&config).into();>>>
 //@rewrite <<<subcommands::show_config::show_config(&config, &mut stdout)>>> => <<<write_result>>>
 //@| ensures oneshot_ok(write_result, r),  // @C18:show.config.with.a.closed.pipe.ends.quietly.with.status.0
 
